@@ -149,6 +149,9 @@ impl Table for Rqsc {
         }
         Ok(())
     }
+    fn summary(&self, img: &[u8], ents: &[Ent]) -> Vec<u64> {
+        ents.iter().filter(|e| e.len >= 28).map(|e| rd16(img, e.off + 26) as u64).collect()
+    }
     fn fields(&self, _k: u8, s: u16) -> Vec<FT> {
         use FT::*;
         let mut v = vec![E(2)];
